@@ -350,18 +350,23 @@ namespace AIToolbox::POMDP {
                 if ( !isProbability(O, of[s1][a]) )
                     throw std::invalid_argument("Input observation matrix does not contain valid probabilities.");
 
+        // We build the new function on the side: small entries are dropped,
+        // so we verify that what we are going to store is still a
+        // probability before touching the model.
+        ObservationMatrix newO(this->getA(), SparseMatrix2D(this->getS(), O));
         for ( size_t a = 0; a < this->getA(); ++a ) {
-            observations_[a].setZero();
             for ( size_t s1 = 0; s1 < this->getS(); ++s1 )
             for ( size_t o = 0; o < O; ++o ) {
                 const double p = of[s1][a][o];
                 if ( checkDifferentSmall( p, 0.0 ) )
-                    observations_[a].insert(s1, o) = p;
+                    newO[a].insert(s1, o) = p;
             }
+            newO[a].makeCompressed();
         }
+        if (!isProbability(newO))
+            throw std::invalid_argument("Input observation matrix does not contain valid probabilities.");
 
-        for ( size_t a = 0; a < this->getA(); ++a )
-            observations_[a].makeCompressed();
+        observations_ = std::move(newO);
     }
 
     template <MDP::IsModel M>
